@@ -55,6 +55,7 @@ class Sim:
         self.killed = False
         self.timeout_prob = timeout_prob
         self.keep_log = True
+        self.hook = None               # hook(kind, object): called by the substituted Event at set / clear / return of wait
 
     # ------------------------------------------------------------------ thread side
     def _yield(self, label, cond=None, timeout=None):
@@ -278,16 +279,22 @@ def make_modules(sim):
         def set(self):
             sim._yield(("event.set", id(self)))
             self.flag = True
+            if sim.hook:
+                sim.hook("event.set", self)
 
         def clear(self):
             sim._yield(("event.clear", id(self)))
             self.flag = False
+            if sim.hook:
+                sim.hook("event.clear", self)
 
         def is_set(self):
             return self.flag
 
         def wait(self, timeout=None):
             sim._yield(("event.wait", id(self)), cond=lambda: self.flag, timeout=timeout)
+            if sim.hook:
+                sim.hook("event.wait.return", self)
             return self.flag
 
     class Thread:
